@@ -427,6 +427,11 @@ pub struct XlsbBook {
     pub workbook_pre: Vec<(u16, Vec<u8>)>,
     /// relationship id of every sheet (an NCName: no XML-special characters); `None` = `rId1`, `rId2`, … (C16)
     pub rel_ids: Option<Vec<String>>,
+    /// supporting-link records `(id, payload)` (BrtSupSame 0x0166, BrtSupAddin 0x029B, BrtSupBookSrc 0x0163 …) written
+    /// inside BrtBeginExternals … BrtEndExternals before / after BrtSupSelf; the XTIs of `extern_sheets` name the self
+    /// link by its index (= `sup_before.len()`). Only written when `extern_sheets` is not empty. (C16)
+    pub sup_before: Vec<(u16, Vec<u8>)>,
+    pub sup_after: Vec<(u16, Vec<u8>)>,
     /// extra records `(id, payload)` written in styles.bin between BrtEndFmts and BrtBeginCellXFs (where Excel puts
     /// fonts, fills, borders and the cell style XFs), framed by the book's framing
     pub styles_pre: Vec<(u16, Vec<u8>)>,
@@ -466,6 +471,8 @@ impl XlsbBook {
             extra_parts: vec![],
             workbook_pre: vec![],
             rel_ids: None,
+            sup_before: vec![],
+            sup_after: vec![],
             styles_pre: vec![],
             fmts_interleave: None,
             raw_parts: vec![],
@@ -517,10 +524,17 @@ impl XlsbBook {
         fr.rec(&mut o, 0x0090, &[]); // BrtEndBundleShs
         if !self.extern_sheets.is_empty() {
             fr.rec(&mut o, 0x0161, &[]); // BrtBeginExternals
+            for (id, p) in &self.sup_before {
+                fr.rec(&mut o, *id, p);
+            }
             fr.rec(&mut o, 0x0165, &[]); // BrtSupSelf
+            for (id, p) in &self.sup_after {
+                fr.rec(&mut o, *id, p);
+            }
             let mut p = (self.extern_sheets.len() as u32).to_le_bytes().to_vec();
             for (a, b) in &self.extern_sheets {
-                p.extend_from_slice(&0u32.to_le_bytes());
+                // first field of an XTI: index of the supporting link (the self link comes after `sup_before`)
+                p.extend_from_slice(&(self.sup_before.len() as u32).to_le_bytes());
                 p.extend_from_slice(&a.to_le_bytes());
                 p.extend_from_slice(&b.to_le_bytes());
             }
